@@ -309,8 +309,8 @@ func handleHRANDFIELD(params internal.HandlerFuncParams) ([]byte, error) {
 		return nil, fmt.Errorf("value at %s is not a hash", key)
 	}
 
-	// If count is the >= hash length, then return the entire hash
-	if count >= len(hash) {
+	// If the hash is empty there is nothing to pick from; if count is >= hash length, return the entire hash
+	if len(hash) == 0 || count >= len(hash) {
 		res := fmt.Sprintf("*%d\r\n", len(hash))
 		if withvalues {
 			res = fmt.Sprintf("*%d\r\n", len(hash)*2)
